@@ -27,16 +27,67 @@ def is_string_ty(ty):
 PARAMS = {}      # name -> "$k" for the function being abstracted (set by Skel.of_fn)
 
 
+def _alias_root(e):
+    """`e` = <local>.f.g with <local> an immutable `let` bound to a pure place expression that leads to a format-table field: the same
+    expression with the local replaced by that place; else None"""
+    chain, x = [], e
+    while True:
+        x = strip(x)
+        if x["k"] == "Field":
+            chain.append(x)
+            x = x["e"]
+        elif x["k"] == "AddrOf" or (x["k"] == "Unary" and x.get("op") in ("*", "Deref")):
+            x = x["e"]
+        else:
+            break
+    if not (x["k"] == "Path" and x["path"].get("res") == "local" and x["path"].get("hid") in LETS):
+        return None
+    i_ = strip(LETS[x["path"]["hid"]])
+    while i_["k"] == "AddrOf" or (i_["k"] == "Unary" and i_.get("op") in ("*", "Deref")):
+        i_ = strip(i_["e"])
+    ifp = field_path(i_)
+    if not ifp:
+        return None
+    probe = ifp + tuple(c["name"] for c in reversed(chain))
+    if not (maps.table_field(probe) or maps.table_field(ifp) or (i_["k"] == "Path" and i_["path"].get("hid") in LETS)):
+        return None
+    out = i_
+    for c in reversed(chain):
+        out = dict(c, e=out)
+    return out
+
+
+STATE_NAMES = {"self"}     # locals / parameters of the function being abstracted whose type is the enum ParseState (set by Skel.of_fn)
+
+
+def _state_names(it):
+    out = {"self"}
+    for n in hir.walk(it["body"]):
+        if n.get("k") == "Path" and n.get("path", {}).get("res") == "local" and "impl_enum::parser::ParseState" in (n.get("ty") or ""):
+            out.add(n["path"]["name"])
+    return out
+
+
+LETS = {}        # hid -> initialiser of the immutable `let`s of the function being abstracted (set by Skel.of_fn)
+
+
 def argkey(e):
     e = strip(e)
     while e["k"] == "AddrOf" or (e["k"] == "Unary" and e.get("op") in ("*", "Deref")):
         e = strip(e["e"])
+    # a named temporary for a keyword (`let right = self.format.compound.brackets.1;`, `let b = &self.format.sentence.truth_brackets; b.0`)
+    # is that keyword: the format tables are immutable
+    for _ in range(4):
+        r = _alias_root(e)
+        if r is None:
+            break
+        e = r
     fp = field_path(e)
     if fp:
         tf = maps.table_field(fp)
         if tf:
             return tf
-        if fp[0] in ("self", "parser", "state"):
+        if fp[0] in STATE_NAMES:
             return ".".join(("self",) + tuple(fp[1:]))
         # binder independent: parameters by position, other locals anonymous
         root = PARAMS.get(fp[0], "·")
@@ -58,6 +109,10 @@ class Skel:
 
     def of_fn(self, it):
         PARAMS.clear()
+        LETS.clear()
+        LETS.update(hir.let_env(it["body"]))
+        STATE_NAMES.clear()
+        STATE_NAMES.update(_state_names(it))
         k = 0
         for q in it.get("params", []):
             if q.get("k") == "Binding" and q["name"] != "self":
@@ -70,7 +125,7 @@ class Skel:
         for n in hir.walk(it["body"]):
             if n.get("k") == "Let" and n.get("init") is not None and n["pat"].get("k") == "Binding":
                 ip = field_path(strip(n["init"]))
-                if ip and ip[0] in ("self", "parser") and ip[-1] == "head":
+                if ip and ip[0] in STATE_NAMES and ip[-1] == "head":
                     snaps[n["pat"]["hid"]] = 0
         if snaps:
             uses, cmps = dict.fromkeys(snaps, 0), dict.fromkeys(snaps, 0)
@@ -80,7 +135,7 @@ class Skel:
                 if n.get("k") == "Binary" and n["op"] in ("==", "!=", "Eq", "Ne"):
                     for a, b_ in ((n["l"], n["r"]), (n["r"], n["l"])):
                         a, b_ = strip(a), strip(b_)
-                        if a["k"] == "Path" and a["path"].get("hid") in snaps and field_path(b_) in (("self", "head"), ("parser", "head")):
+                        if a["k"] == "Path" and a["path"].get("hid") in snaps and (field_path(b_) or ("",))[-1] == "head" and len(field_path(b_)) == 2 and field_path(b_)[0] in STATE_NAMES:
                             cmps[a["path"]["hid"]] += 1
             self.progress_only = {h for h in snaps if uses[h] == cmps[h] and uses[h] > 0}
         return self.norm(self.ops(it["body"]))
@@ -228,7 +283,7 @@ class Skel:
                     return out + self.branch_ops(br, rest)
                 out += self.ops(s.get("init"))
                 ip = field_path(strip(s["init"])) if s.get("init") else None
-                if ip and ip[0] in ("self", "parser") and ip[-1] in ("head", "len_env") and s["pat"]["k"] == "Binding" \
+                if ip and ip[0] in STATE_NAMES and ip[-1] in ("head", "len_env") and s["pat"]["k"] == "Binding" \
                         and s["pat"].get("hid") not in self.progress_only:
                     out.append(("snapshot", ".".join(("self",) + tuple(ip[1:]))))
                 if s.get("els"):
@@ -256,11 +311,11 @@ class Skel:
             inner = self.ops(e["recv"])
             for a in e["args"]:
                 inner += self.ops(a)
-            if rp in STATE_RECV and m in CURSOR:
+            if rp and len(rp) == 1 and rp[0] in STATE_NAMES and m in CURSOR:
                 return inner + [("cur", m) + tuple(argkey(a) for a in e["args"])]
-            if rp in STATE_RECV and m in TESTS:
+            if rp and len(rp) == 1 and rp[0] in STATE_NAMES and m in TESTS:
                 return inner + [("test", m) + tuple(argkey(a) for a in e["args"])]
-            if rp and rp[-1] == "env" and rp[0] in ("self", "parser", "state") and m in ("is_empty", "len"):
+            if rp and rp[-1] == "env" and rp[0] in STATE_NAMES and m in ("is_empty", "len"):
                 return inner + [("test", "env." + m)]
             if rp and len(rp) >= 2 and rp[-2] == "mid_result" and m in SLOT_METHODS:
                 return inner + [("slot", rp[-1], m)]
@@ -287,7 +342,7 @@ class Skel:
             if MOD in d and nm in ("err",):
                 return inner + [("err",)]
             if (MOD in d and nm not in ("ok", "ok_consume", "err")) or nm.startswith(LOCAL_PREFIXES):
-                return inner + [("call", nm) + tuple(argkey(a) for a in e["args"] if field_path(a) != ("self",))]
+                return inner + [("call", nm) + tuple(argkey(a) for a in e["args"] if not (field_path(a) and len(field_path(a)) == 1 and field_path(a)[0] in STATE_NAMES))]
             return inner
         if k == "If":
             return self.branch_ops(self.as_branch(e), None)
@@ -328,13 +383,13 @@ class Skel:
                 out.append(("bool", "&&" if e["op"] in ("&&", "And") else "||"))
             fl, fr = field_path(l), field_path(r)
             for a, b_ in ((l, r), (r, l)):
-                if a["k"] == "Path" and a["path"].get("hid") in self.progress_only and field_path(b_) in (("self", "head"), ("parser", "head")):
+                if a["k"] == "Path" and a["path"].get("hid") in self.progress_only and (field_path(b_) or ("",))[-1] == "head" and len(field_path(b_)) == 2 and field_path(b_)[0] in STATE_NAMES:
                     return out + ([("noprogress",)] if e["op"] in ("==", "Eq") else [("noprogress",), ("not",)])
-            if (fl and fl[-1] in ("head", "len_env") and fl[0] in ("self", "parser")) or (fr and fr[-1] in ("head", "len_env") and fr[0] in ("self", "parser")):
+            if (fl and fl[-1] in ("head", "len_env") and fl[0] in STATE_NAMES) or (fr and fr[-1] in ("head", "len_env") and fr[0] in STATE_NAMES):
                 def side(fp_):
                     if not fp_:
                         return "<expr>"
-                    return ".".join(("self",) + tuple(fp_[1:])) if fp_[0] in ("self", "parser", "state") else "·"
+                    return ".".join(("self",) + tuple(fp_[1:])) if fp_[0] in STATE_NAMES else "·"
                 out.append(("cmpstate", e["op"], side(fl), side(fr)))
             return out
         if k == "Unary" and e.get("op") in ("!", "Not"):
@@ -427,6 +482,16 @@ def expand(sk):
         if o == ["cur", "head_skip_spaces"] and res and res[-1] == o:
             continue
         res.append(o)
+    # storing a parsed item in its result slot and moving the cursor touch different parts of the state: directly adjacent, they commute.
+    # Canonical order: cursor moves first (`insert stamp; skip ']'` == `skip ']'; insert stamp`)
+    changed = True
+    while changed:
+        changed = False
+        for i in range(len(res) - 1):
+            a, b = res[i], res[i + 1]
+            if isinstance(a, list) and isinstance(b, list) and len(a) == 3 and a[0] == "slot" and a[2] == "insert" and b and b[0] == "cur":
+                res[i], res[i + 1] = b, a
+                changed = True
     return res
 
 
